@@ -351,6 +351,9 @@ func (t *BPMNShape) IsHorizontal() (result bool, present bool) {
 	if t.IsHorizontalField != nil {
 		present = true
 	}
+	if !present {
+		return
+	}
 	result = *t.IsHorizontalField
 	return
 }
@@ -360,6 +363,9 @@ func (t *BPMNShape) SetIsHorizontal(value *bool) {
 func (t *BPMNShape) IsExpanded() (result bool, present bool) {
 	if t.IsExpandedField != nil {
 		present = true
+	}
+	if !present {
+		return
 	}
 	result = *t.IsExpandedField
 	return
@@ -371,6 +377,9 @@ func (t *BPMNShape) IsMarkerVisible() (result bool, present bool) {
 	if t.IsMarkerVisibleField != nil {
 		present = true
 	}
+	if !present {
+		return
+	}
 	result = *t.IsMarkerVisibleField
 	return
 }
@@ -380,6 +389,9 @@ func (t *BPMNShape) SetIsMarkerVisible(value *bool) {
 func (t *BPMNShape) IsMessageVisible() (result bool, present bool) {
 	if t.IsMessageVisibleField != nil {
 		present = true
+	}
+	if !present {
+		return
 	}
 	result = *t.IsMessageVisibleField
 	return
@@ -608,6 +620,9 @@ func (t *Font) Size() (result Double, present bool) {
 	if t.SizeField != nil {
 		present = true
 	}
+	if !present {
+		return
+	}
 	result = *t.SizeField
 	return
 }
@@ -617,6 +632,9 @@ func (t *Font) SetSize(value *Double) {
 func (t *Font) IsBold() (result bool, present bool) {
 	if t.IsBoldField != nil {
 		present = true
+	}
+	if !present {
+		return
 	}
 	result = *t.IsBoldField
 	return
@@ -628,6 +646,9 @@ func (t *Font) IsItalic() (result bool, present bool) {
 	if t.IsItalicField != nil {
 		present = true
 	}
+	if !present {
+		return
+	}
 	result = *t.IsItalicField
 	return
 }
@@ -638,6 +659,9 @@ func (t *Font) IsUnderline() (result bool, present bool) {
 	if t.IsUnderlineField != nil {
 		present = true
 	}
+	if !present {
+		return
+	}
 	result = *t.IsUnderlineField
 	return
 }
@@ -647,6 +671,9 @@ func (t *Font) SetIsUnderline(value *bool) {
 func (t *Font) IsStrikeThrough() (result bool, present bool) {
 	if t.IsStrikeThroughField != nil {
 		present = true
+	}
+	if !present {
+		return
 	}
 	result = *t.IsStrikeThroughField
 	return
@@ -940,6 +967,9 @@ func (t *Diagram) SetDocumentation(value *string) {
 func (t *Diagram) Resolution() (result Double, present bool) {
 	if t.ResolutionField != nil {
 		present = true
+	}
+	if !present {
+		return
 	}
 	result = *t.ResolutionField
 	return
